@@ -50,12 +50,22 @@ def r1(F, R):
             R.unverifiable(f"builder/{kw}", f"{len(ms)} candidates")
             continue
         m = ms[0]
-        ins = [(s, t) for s, t in m.calls(lambda t: callee_is(t, r"HashMap::<.*>::insert$"))]
-        flds = set()
-        for s, t in ins:
-            sl = A.slice_back(m, [t["args"][0]])
-            flds |= {n for o, n in sl.fields if o == COL}
-        R.check(len(ins) == 1 and flds == {kw}, f"builder-inserts-into/{kw}", m, f"Collection::{kw} inserts into `{kw}`", f"Collection::{kw} inserts into {sorted(flds)}")
+        # on the builder's deep path table (a private `register(map, ..)` helper is inlined): one insert, into the map named like the builder
+        from . import deep as D
+        fnames = [f["name"] for f in F.adts[("cucumber", COL)]["variants"][0]["fields"]]
+        flds, n_ins = set(), []
+        for p in D.Deep(F, m, max_paths=40).run():
+            k = 0
+            for e in p.effects:
+                if e[0] == "call" and re.search(r"HashMap(::<.*>)?::insert$", e[1]):
+                    k += 1
+                    for x in D.subterms(e[2][0]):
+                        if x[0] == "field" and x[1] in (("arg", 1), ("deref", ("arg", 1))) and isinstance(x[2], int) and x[2] < len(fnames):
+                            flds.add(fnames[x[2]])
+                        if x[0] == "field" and x[1] == ("L", 0, 1) and isinstance(x[2], int) and x[2] < len(fnames):
+                            flds.add(fnames[x[2]])
+            n_ins.append(k)
+        R.check(n_ins and set(n_ins) == {1} and flds == {kw}, f"builder-inserts-into/{kw}", m, f"Collection::{kw} inserts into `{kw}`", f"Collection::{kw} inserts into {sorted(flds)} ({n_ins} inserts per path)")
     # the hand-written Clone keeps the keyword maps apart (runners / Cucumber builders are cloned together with their collection)
     roles.check_field_faithful_clone(F, R, COL, "collection")
     R.floor(7)
@@ -214,16 +224,19 @@ def r3(F, R):
             R.unverifiable(f"regex-{meth}", f"{len(ms)} impls")
             continue
         m = ms[0]
-        ops = [(s, t) for s, t in m.calls(lambda t: callee_is(t, r"Ord::cmp$", r"PartialEq.*::eq$", r"Hash::hash$", r"PartialOrd.*::partial_cmp$"))]
+        # on the method's deep path table (a private `pattern()` helper is inlined): one comparison / hash, of `regex.as_str()` values
+        from . import deep as D
         okm = False
-        if len(ops) == 1:
-            t = ops[0][1]
-            n_args = 1 if meth == "hash" else 2
-            heads = []
-            for a in t["args"][:n_args]:
-                ch = A.receiver_chain(m, a)
-                heads.append(callee_path(ch[0][1]).rsplit("::", 1)[-1] if ch else None)
-            okm = all(h == "as_str" for h in heads)
+        rows = D.Deep(F, m, max_paths=20).run()
+        if len(rows) == 1:
+            ops = [e for e in rows[0].effects if e[0] == "call" and re.search(r"::(cmp|eq|ne|hash|partial_cmp)$", e[1])]
+            if len(ops) == 1:
+                n_args = 1 if meth == "hash" else 2
+                def is_pat(a, who):
+                    while isinstance(a, tuple) and a and a[0] in ("ref", "deref", "refto"):
+                        a = a[1]
+                    return isinstance(a, tuple) and a[0] == "call" and re.search(r"Regex::as_str$", a[1]) is not None and D.mentions(a, lambda y: y == ("arg", who))
+                okm = all(is_pat(ops[0][2][i], i + 1) for i in range(n_args)) and (meth == "hash" or D.mentions(rows[0].ret, lambda x: x[0] == "call" and x[3] == ops[0][4]))
         R.check(okm, f"regex-{meth}-by-pattern", m, f"{meth} is applied to the pattern strings themselves", f"HashableRegex::{meth} is not computed from the full pattern strings")
     R.floor(4)
 
